@@ -31,6 +31,26 @@ if TYPE_CHECKING:
 _T = TypeVar("_T", bound=date)
 
 
+def _is_after(start: date, end: date) -> bool:
+    # Datetimes sharing one tzinfo are compared on their wall clock time by the
+    # native operators (fold is ignored): compare their UTC instants instead.
+    if (
+        isinstance(start, datetime)
+        and isinstance(end, datetime)
+        and start.tzinfo is not None
+        and start.tzinfo is end.tzinfo
+    ):
+        return _utc_wall(start) > _utc_wall(end)
+
+    return start > end
+
+
+def _utc_wall(dt: datetime) -> datetime:
+    return datetime(
+        dt.year, dt.month, dt.day, dt.hour, dt.minute, dt.second, dt.microsecond
+    ) - cast(timedelta, dt.utcoffset())
+
+
 class Interval(Duration, Generic[_T]):
     """
     An interval of time between two datetimes.
@@ -59,7 +79,7 @@ class Interval(Duration, Generic[_T]):
         ):
             raise TypeError("can't compare offset-naive and offset-aware datetimes")
 
-        if absolute and start > end:
+        if absolute and _is_after(start, end):
             end, start = start, end
 
         _start = start
@@ -175,7 +195,7 @@ class Interval(Duration, Generic[_T]):
                 _end = cast(_T, date(end.year, end.month, end.day))
 
         self._invert = False
-        if start > end:
+        if _is_after(start, end):
             self._invert = True
 
             if absolute:
